@@ -128,11 +128,13 @@ pub fn run(p: &PlainStopPlan, log: bool) -> (RunReport, String) {
     let exempt = |ci: usize, ri: usize| -> bool {
         if ci >= p.first_late { return true; }
         let c = &o.clients[ci];
-        if c.rec.connect_err.is_some() { return c.rec.t_end >= t_acked && t_acked > 0; }
+        let t_stop = o.board.get("t_stop_sent_us").copied().unwrap_or(0) as u64 * 1000;
+        // a connect refused once the stop was on its way to the worker (it closes its listeners while it works on the
+        // command, before it answers) put nothing in flight; one refused before the stop was sent is a lost listener
+        if c.rec.connect_err.is_some() { return t_stop > 0 && c.rec.t_end >= t_stop; }
         let id = p.http.clients[ci].requests[ri].id;
         // a request the client had not started to send when the stop was sent, on a kept-alive connection, or a
         // connection made after the stop, is not "in flight"
-        let t_stop = o.board.get("t_stop_sent_us").copied().unwrap_or(0) as u64 * 1000;
         match c.rec.sent_start.iter().find(|(i, _)| *i == id) { Some((_, t)) => t_stop > 0 && *t >= t_stop, None => true }
     };
     for viol in c01::oracle_filtered(&p.http, &o, &exempt) {
